@@ -514,6 +514,13 @@ pub fn seed_prefixes() -> Vec<Vec<Op>> {
     s.push(Op::AddVersion(1, IdSel::ForeignLatest, 1));
     s.push(Op::AddVersion(1, IdSel::Latest, 2));
     out.push(s);
+    // an OLD snapshot: more than five versions accepted after it (the snapshot is outside the window of the five most recent)
+    let mut s = grow(0, 2, IdSel::Nil);
+    s.push(Op::AddSnap(0, IdSel::Latest, 2));
+    for i in 0..7 {
+        s.push(Op::AddVersion(0, IdSel::Latest, i % PAYLOADS.len()));
+    }
+    out.push(s);
     // a chain started from a non-nil base with a snapshot taken AT that base (the id is no stored version of the client)
     let mut s = grow(0, 2, IdSel::Fresh);
     s.push(Op::AddSnap(0, IdSel::Base, 2));
